@@ -62,7 +62,8 @@ def systematic(ck, b, nbases, stride):
             continue
         kinds = res0.kinds[0]
         off = rng.randrange(stride)
-        for n in list(range(len(kinds)))[off::stride]:
+        chosen = sorted(set(list(range(len(kinds)))[off::stride]) | set(n for n in range(len(kinds)) if kinds[n] in X.RARE_KINDS))
+        for n in chosen:
             sc = X.copy.deepcopy(sc0)
             sc['phases'][0]['policy']['inject'] = [[0, n, 'crash']]
             sc['phases'][0]['policy']['flavour'] = 'kill-at:' + kinds[n]
@@ -106,10 +107,13 @@ def run(ck):
     for sc, res, _ in b.items[:400]:
         if len(ck.samples) < 3 and any(e[0] == 'ECrash' for e in res.trace):
             ck.sample({'program': sc['program'], 'backend': sc['backend'], 'events': [X.ev_show(e) for e in res.trace[:40]]})
+    X.require_coverage(ck, ['kill-at:%s' % k for k in ('sleep', 'pickle', 'ret', 'start', 'dump', 'unlock', 'lock', 'can_load', 'begin')],
+                       'kill at every kind of scheduling point')
     b.flush()
     # real SIGKILL of real `jug execute` processes on a file store (also INSIDE file_store.dump), cleanup --locks-only, recovery
     from . import execproc
     execproc.kill_runs(ck, ck.n(4, 30))
+    X.require_coverage(ck, ['process-run:kill:in-dump:delivered'], 'real SIGKILL inside file_store.dump')
 
 
 def replay(obj):
